@@ -13,7 +13,7 @@ import os
 import sys
 from typing import Any, Dict, List, Optional
 
-sys.path.insert(0, "/repo/src")
+sys.path.insert(0, __import__("os").environ.get("VF_REPO", "/repo") + "/src")
 
 from . import frames as F
 from .vio import Net, Installed, HarnessError
